@@ -77,6 +77,9 @@ func TestC08(t *testing.T) {
 	p = c.rec.NewPart("bytes_exhaustive", "every string of length 0..3 over the SQL byte-class alphabet", false, true, "")
 	c.EnumSeq(p, gen.AlphaSQL, "", 0, 3, judge)
 
+	fpr, _, _ := fpRealisations()
+	p = c.rec.NewPart("fingerprint_realisations", "one or two inputs per realisable blacklist key (see C06)", false, true, "")
+	c.ParRange(p, int64(len(fpr)), func(w *Worker, i int64) { judge(w, fpr[i]) })
 	bnd := sqlBoundaryInputs()
 	p = c.rec.NewPart("boundary_inputs", "slot-, clip- and length-boundary inputs (see C06)", false, true, "")
 	c.ParRange(p, int64(len(bnd)), func(w *Worker, i int64) { judge(w, bnd[i]) })
